@@ -161,7 +161,9 @@ theorem findEarlierGo_spec : (fs : List OFrag) → ∀ (bs : List OBox) (i : Nat
                 obtain ⟨hl, hp, hw⟩ := findEarlierFrag_spec x b sub (hgb hbin) (hx hbin) x' r hfe
                 have hx'in : x'.inFlow = true := by rw [findEarlierFrag_inFlow x x' r hfe]; exact hxin
                 refine ⟨0, some r, by rw [hxi]; rfl, by simp, ?_, ?_, ?_⟩
-                · simp only [fragLinesList, linesFromKids, List.append_nil, hx'in, hbin, if_true]
+                · have hcl : fragLines x'.cutEnd = fragLines x' := by cases x' <;> rfl
+                  have hci : x'.cutEnd.inFlow = x'.inFlow := by cases x' <;> rfl
+                  simp only [fragLinesList, linesFromKids, List.append_nil, hci, hcl, hx'in, hbin, if_true]
                   rw [← List.append_assoc, hl]
                 · simpa only [posKids, hbin, if_true] using hp
                 · simpa only [WfSkipKids, hbin, if_true] using hw
